@@ -207,3 +207,14 @@ def _f24(hist, mm):
         if st.get('op') == 'fromhp' and any(isinstance(v, float) and v < -1.6e30 for v in st['values']):
             return True
     return False
+
+
+@signature('F53')
+def _f53(hist, mm):
+    """a record-array map with a signed 8-bit field written through astropy: the column is stored as a FITS
+    logical and comes back boolean"""
+    has_i1 = any(st.get('op') == 'mk' and st.get('kind') == 'rec' and any(t == 'i1' for _, t in st.get('fields', []))
+                 for st in hist)
+    wrote = any(st.get('op') in ('wr', 'rdeg', 'cat') for st in hist)
+    return has_i1 and wrote and any(("dtype('bool')" in m['what'] and "dtype('int8')" in m['what']) or 'values' in m['what']
+                                    for m in mm)
